@@ -84,12 +84,13 @@ func runC12(ci interface{}) Result {
 		spec := &sc.Bars[p.Bar].Decors[p.Decor]
 		text := p.Text
 		if !p.InnerCalled {
-			text = decorFinalText(spec.Wrap, p.Completed, p.Aborted)
-			if text == "" {
+			var sub bool
+			text, sub = decorFinalText(spec.Wrap, p.Completed, p.Aborted)
+			if !sub {
 				r.Err, r.Kind = fmt.Errorf("cycle %d bar %d decorator %d (wrappers %v, completed=%v aborted=%v): the wrapped decorator was not asked although no wrapper substitutes a message", p.Cycle, p.Bar, p.Decor, spec.Wrap, p.Completed, p.Aborted), "not-called"
 				return r
 			}
-		} else if m := decorFinalText(spec.Wrap, p.Completed, p.Aborted); m != "" {
+		} else if m, sub := decorFinalText(spec.Wrap, p.Completed, p.Aborted); sub {
 			r.Err, r.Kind = fmt.Errorf("cycle %d bar %d decorator %d: wrappers %v should show %q for completed=%v aborted=%v but the wrapped decorator was asked", p.Cycle, p.Bar, p.Decor, spec.Wrap, m, p.Completed, p.Aborted), "wrapper"
 			return r
 		}
